@@ -1,7 +1,10 @@
 package c07
 
 import (
+	"os"
+	"path/filepath"
 	"strings"
+	"sync"
 
 	"verif/internal/refobj"
 	"verif/internal/run"
@@ -31,15 +34,59 @@ var quirkMatchers = map[string]func(q *refobj.Quirks){
 }
 
 // knownQuirks is the deviation model of the implementation as recorded in
-// known_findings/C07.jsonl with status open. Deviations whose finding is
-// fixed (for-in shadowing and live-order walk: commit 47473cd) are switched
-// off here; their refobj models and matcher names stay for the record.
+// known_findings/C07.jsonl: the deviation named by a matcher is switched on
+// iff a finding with status "open" uses that matcher. Marking a finding
+// "fixed" therefore also removes its deviation from the model the check
+// follows. (The findings live under the --root the harness was started with,
+// default /verif; if the file cannot be read every modelled deviation except
+// the for-in ones fixed in commit 47473cd is assumed.)
 func knownQuirks() refobj.Quirks {
-	q := refobj.AllQuirks()
-	q.ForInNoShadow = false
-	q.ForInLiveOrder = false
-	return q
+	knownOnce.Do(func() {
+		known = refobj.AllQuirks()
+		known.ForInNoShadow, known.ForInLiveOrder = false, false
+		root := "/verif"
+		for i, a := range os.Args {
+			switch {
+			case (a == "--root" || a == "-root") && i+1 < len(os.Args):
+				root = os.Args[i+1]
+			case strings.HasPrefix(a, "--root="):
+				root = a[len("--root="):]
+			case strings.HasPrefix(a, "-root="):
+				root = a[len("-root="):]
+			}
+		}
+		fs, err := run.LoadFindings(filepath.Join(root, "known_findings.jsonl"))
+		if err != nil {
+			return
+		}
+		open := map[string]bool{}
+		n := 0
+		for _, f := range fs {
+			if f.Property == "C07" {
+				n++
+				if f.Status == "open" {
+					open[f.Matcher] = true
+				}
+			}
+		}
+		if n == 0 {
+			return
+		}
+		q := refobj.AllQuirks()
+		for name, drop := range quirkMatchers {
+			if !open[name] {
+				drop(&q)
+			}
+		}
+		known = q
+	})
+	return known
 }
+
+var (
+	knownOnce sync.Once
+	known     refobj.Quirks
+)
 
 func registerMatchers() {
 	for name, drop := range quirkMatchers {
